@@ -346,6 +346,11 @@ func runC07(t *testing.T, seed int64, n int, out *Out) {
 			c := r.Intn(100)
 			if r.Intn(8) == 0 {
 				p := k.GetParams(ctx)
+				// the proposal may also move the one vault parameter whose name promises a lending limit; validation accepts any
+				// non-negative value, and the 90 % cap of the property has to hold under every setting governance can make
+				if r.Intn(2) == 0 {
+					p.MaxLeverageRatio = math.LegacyMustNewDecFromStr([]string{"0", "0.5", "0.9", "0.95", "1", "3"}[r.Intn(6)])
+				}
 				draft = &p
 			}
 			if draft != nil && r.Intn(12) == 0 {
